@@ -21,4 +21,17 @@ PLANS = {
         "assumptions": ["reference nested-loop join model in /verif/sim/model.go", "testing/synctest quiescence (go1.26.8 runtime)",
                         "inputs are valid changelogs with truthful watermarks and no late records"],
     },
+    "C02": {
+        "level": "exploration",
+        "technique": "deterministic simulation: SQL -> real planner/optimiser/join nodes over gated simulator tables, seeded interleaving incl. which input finishes first, nested-loop SQL join oracle (NULL never equal)",
+        "level_text": ("seeded exploration of generated join queries (inner/left/right/full/lookup, 1-3 key columns, theta and WHERE conjuncts, nested third table, optimiser on/off) x "
+                       "generated tables with NULL and duplicate keys x input interleavings; final consolidated output compared with a reference SQL join"),
+        "level_note": "trusted: reference nested-loop join with three-valued key equality, synctest quiescence; LOOKUP JOIN has no schedule dimension (sequential) and is counted separately in probes",
+        "parts": [{"check": "c02", "quick": 40000, "thorough": 2500000}],
+        "rule": ("each run draws a join query shape, 2-3 tables (0..N rows, keys from {1,2,3,NULL}, duplicates likely) and the message interleaving of the table sources; "
+                 "non-trivial = at least 2 input rows in total; distinct = distinct (query-shape hash, tables+schedule hash) pairs"),
+        "components": {"real": ["sqlparser", "parser", "logical typecheck", "optimizer", "physical.Materialize", "nodes.StreamJoin/OuterJoin/LookupJoin/Filter/Map", "functions (=, <, >=, AND)"],
+                       "stub": ["table sources (sim database, scripted and gated)", "sink (collecting)", "cobra command, config file, printers (not run)"]},
+        "assumptions": ["reference nested-loop SQL join in /verif/sim/model.go", "testing/synctest quiescence (go1.26.8 runtime)"],
+    },
 }
